@@ -317,7 +317,7 @@ def util(a):
         return {'neighbors': [sorted(tolist(get_neighbors(m, i, transpose=t))) for i in range(n)],
                 'degrees': tolist(get_degrees(m, transpose=t)), 'weights': tolist(get_weights(m, transpose=t))}
     if kind == 'd2u':
-        m = _m(a['m'], dtype_of(a))
+        m = _m(a['m'])
         snap = _state(m)
         r = directed2undirected(m, weighted=bool(a['weighted']))
         return {'dense': sparse.csr_matrix(r).astype(float).toarray().tolist(), 'input_unchanged': _state(m) == snap,
@@ -346,13 +346,13 @@ def util(a):
     raise ValueError(kind)
 
 
-def dtype_of(a):
-    return None
-
-
-def _m(spec, fmt=None):  # noqa: F811  (final definition: dtype may be given by the case)
-    spec = dict(spec)
-    spec.setdefault('dtype', 'float')
-    if fmt:
-        spec['fmt'] = fmt
-    return mk_matrix(spec)
+def topk_oracles(a):
+    """the answers NumPy gives to the two calls top_k makes (fed to the model as oracles)"""
+    s = np.array(a['scores'], dtype=float)
+    k = a['k']
+    n = len(s)
+    if k >= n:
+        return {'argsort_input': (-s).tolist(), 'argsort': np.argsort(-s).tolist(), 'argpartition': []}
+    p = np.argpartition(-s, k)
+    sub = -s[p[:k]]
+    return {'argpartition': p.tolist(), 'argsort_input': sub.tolist(), 'argsort': np.argsort(sub).tolist()}
